@@ -60,3 +60,7 @@ def mean_field_two_baths(inp):
         return {'violates': True, 'detail': 'unique=True raised %s: %s' % (type(e).__name__, str(e)[:100])}
     dev = [float(np.abs(a - b).max()) for a, b in zip(ref_s, s)] + [float(np.abs(ref_f - f).max())]
     return {'violates': max(dev) > 1e-5, 'max deviation unique=True vs unique=False (species 1, species 2, field)': dev}
+
+
+# thorough tier (bounded native sweeps): (function, inputs, obligation of the open finding it reproduces or None)
+THOROUGH = [('unique_vs_full', {}, None), ('mean_field_two_baths', {}, None)]
